@@ -992,7 +992,20 @@ func (x *Exec) sliceOp(st *State, t *ssa.Slice) Val {
 		}
 		x.oblige("bounds", "slice", []string{"C18.nopanic"}, "0 <= low <= high <= cap", st.Guard,
 			o.And(o.IdxLe(o.Idx(0), lo), o.IdxLe(lo, hi), o.IdxLe(hi, b.Cap)))
-		return SliceVal{Reg: b.Reg, Off: o.IdxAdd(b.Off, lo), Len: o.IdxSub(hi, lo), Cap: o.IdxSub(cp, lo), Elem: b.Elem}
+		r := SliceVal{Reg: b.Reg, Off: o.IdxAdd(b.Off, lo), Len: o.IdxSub(hi, lo), Cap: o.IdxSub(cp, lo), Elem: b.Elem}
+		if z, ok := lo.ConstInt64(); ok && z == 0 {
+			same := hi == b.Len
+			if !same && !o.M.BV {
+				if d, ok := o.Sub(hi, b.Len).ConstInt64(); ok && d == 0 {
+					same = true
+				}
+			}
+			if same {
+				r.Len = b.Len
+				r.Cat = b.Cat // s[:len(s)] and s[:len(s):max]: the same elements, so the same description
+			}
+		}
+		return r
 	case PtrVal: // pointer to array
 		x.nilCheck(st, b, "slice")
 		if b.Obj != nil && b.Obj.Reg != nil {
